@@ -213,7 +213,7 @@ impl Property for P {
     fn cases(tier: Tier) -> u64 {
         match tier {
             Tier::Quick => 15_000,
-            Tier::Thorough => 100_000,
+            Tier::Thorough => 500_000,
         }
     }
     fn chunk(_t: Tier) -> u64 {
